@@ -205,6 +205,12 @@ def getPath {N : Type} (fields : Dict N) : Path → Option (JValue N)
     | none => none
     | some v => getIn rest v
 
+/-- configobject.cpp:93, 108-113: the original-attributes dictionary, created empty on first use. -/
+def origOf {N : Type} (o : Obj N) : Orig N :=
+  match o.original with
+  | some g => g
+  | none => []
+
 /-! ## ModifyAttribute -/
 
 /-- configobject.cpp:155-179 (`field.Attributes & FAConfig`): what is remembered about the value
@@ -253,9 +259,7 @@ def modify {N : Type} (o : Obj N) (p : Path) (v : JValue N) : Except Err (Obj N)
     match dGet? f o.fields with
     | none => .error .noField                        -- :102-103
     | some old =>
-      let orig := match o.original with              -- :108-113
-        | some g => g
-        | none => []
+      let orig := origOf o                           -- :108-113
       match rest with
       | [] => .ok { fields := dSet f v o.fields, original := some (oAdd [f] old orig) }        -- :183-190, :196
       | k :: ks =>
